@@ -45,10 +45,35 @@ def tokens_of(src):
     return [t for t in TOKEN_RE.findall(src)]
 
 
+# Valid programs over features the typed generator does not produce (generics, contracts, closures, collections,
+# extern/unsafe, tuple results): starting points for the token-level mutations, and run unmutated as well
+FEATURE_SEEDS = [
+    # generic union with type-parameter and primitive fields, read through match bindings
+    'union Outcome<T, E> {\n    Good { value: T },\n    Bad { code: int, error: E }\n}\nfn classify(r: Outcome<int, string>) -> int {\n    match r {\n        Good(g) => { return g.value }\n        Bad(b) => {\n            (println b.error)\n            return b.code\n        }\n    }\n}\nshadow classify { assert (== (classify Outcome<int, string>.Good { value: 4 }) 4) }\nfn main() -> int {\n    (println (classify Outcome<int, string>.Bad { code: 7, error: "e" }))\n    return 0\n}\nshadow main { assert true }\n',
+    # generic union instantiated twice, returned from a function
+    'union Maybe<T> {\n    Some { v: T },\n    None { pad: int }\n}\nfn first(a: array<int>) -> Maybe<int> {\n    if (> (array_length a) 0) {\n        return Maybe<int>.Some { v: (at a 0) }\n    }\n    return Maybe<int>.None { pad: 0 }\n}\nshadow first { assert true }\nfn name(b: bool) -> Maybe<string> {\n    if b {\n        return Maybe<string>.Some { v: "yes" }\n    }\n    return Maybe<string>.None { pad: 1 }\n}\nshadow name { assert true }\nfn main() -> int {\n    let m: Maybe<int> = (first [3, 4])\n    match m {\n        Some(s) => { (println s.v) }\n        None(n) => { (println n.pad) }\n    }\n    let q: Maybe<string> = (name true)\n    match q {\n        Some(s) => { (println s.v) }\n        None(n) => { (println n.pad) }\n    }\n    return 0\n}\nshadow main { assert true }\n',
+    # contracts with struct and tuple results
+    'struct P { x: int, y: int }\nfn mk(a: int) -> P\n    requires (>= a 0)\n    ensures (== result.x a)\n{\n    return P { x: a, y: (* a 2) }\n}\nshadow mk { assert (== (mk 2).y 4) }\nfn pair(a: int) -> (int, string)\n    ensures (== result.0 a)\n{\n    return (a, "s")\n}\nshadow pair { assert true }\nfn inc(a: int) -> int\n    requires (< a 100)\n    ensures (> result a)\n{\n    (+ a 1)\n}\nshadow inc { assert (== (inc 1) 2) }\nfn main() -> int {\n    (println (mk 3).x)\n    let t: (int, string) = (pair 5)\n    (println t.1)\n    (println (inc 7))\n    return 0\n}\nshadow main { assert true }\n',
+    # first-class functions: values, parameters, results
+    'fn dbl(x: int) -> int {\n    return (* x 2)\n}\nshadow dbl { assert (== (dbl 2) 4) }\nfn pick(b: bool) -> fn(int) -> int {\n    return dbl\n}\nshadow pick { assert true }\nfn twice(g: fn(int) -> int, v: int) -> int {\n    return (g (g v))\n}\nshadow twice { assert (== (twice dbl 1) 4) }\nfn label(a: int, s: string) -> string {\n    return (+ s (int_to_string a))\n}\nshadow label { assert true }\nfn main() -> int {\n    let h: fn(int) -> int = (pick true)\n    (println (h 5))\n    let l: fn(int, string) -> string = label\n    (println (l 1 "n"))\n    (println (twice h 3))\n    return 0\n}\nshadow main { assert true }\n',
+    # collections: HashMap, array builtins with function arguments
+    'fn is_even(x: int) -> bool {\n    return (== (% x 2) 0)\n}\nshadow is_even { assert (is_even 2) }\nfn add(a: int, b: int) -> int {\n    return (+ a b)\n}\nshadow add { assert (== (add 1 2) 3) }\nfn main() -> int {\n    let hm: HashMap<string, int> = (map_new)\n    (map_put hm "a" 1)\n    (map_put hm "b" 2)\n    (println (map_get hm "b"))\n    (println (map_has hm "zz"))\n    (println (map_length hm))\n    let xs: array<int> = [1, 2, 3, 4]\n    let ev: array<int> = (filter xs is_even)\n    (println (array_length ev))\n    (println (reduce xs 0 add))\n    return 0\n}\nshadow main { assert true }\n',
+    # extern / unsafe / opaque-free FFI and bstring
+    'extern fn labs(x: int) -> int\nextern fn strlen(s: string) -> int\nfn mag(x: int) -> int {\n    let mut r: int = 0\n    unsafe {\n        set r (labs x)\n    }\n    return r\n}\nshadow mag { assert (== (mag -3) 3) }\nfn main() -> int {\n    (println (mag -9))\n    let mut n: int = 0\n    unsafe { set n (strlen "four") }\n    (println n)\n    let bs: array<u8> = (bytes_from_string "hey")\n    (println (array_length bs))\n    return 0\n}\nshadow main { assert true }\n',
+    # enums, matching on unions inside loops, cond, tuples of structs
+    'enum Op { Add = 1, Sub = 2, Neg = 70000 }\nstruct V { n: int, tag: string }\nunion Tok { Num { v: int }, Sym { s: string, op: int } }\nfn weight(o: Op) -> int {\n    return (cond ((== o Op.Add) 1) ((== o Op.Sub) 2) (else 3))\n}\nshadow weight { assert (== (weight Op.Neg) 3) }\nfn mk(i: int) -> Tok {\n    if (== i 0) {\n        return Tok.Num { v: 4 }\n    }\n    return Tok.Sym { s: "+", op: i }\n}\nshadow mk { assert true }\nfn main() -> int {\n    let mut total: int = 0\n    for i in (range 0 3) {\n        let t: Tok = (mk i)\n        match t {\n            Num(n) => { set total (+ total n.v) }\n            Sym(y) => {\n                if (== y.op (weight Op.Add)) {\n                    continue\n                }\n                (println y.s)\n            }\n        }\n    }\n    (println total)\n    let pr: (V, int) = (V { n: 1, tag: "t" }, 2)\n    (println pr.1)\n    return 0\n}\nshadow main { assert true }\n',
+]
+TYPE_WORDS = ["int", "string", "bool", "float", "void", "T", "E", "array<int>", "array<T>", "bstring", "P", "Outcome<int, string>",
+              "Maybe<T>", "fn(int) -> int", "(int, string)", "HashMap<string, int>", "Op", "u8"]
+
+
 @st.composite
 def mutant(draw, features):
-    prog = draw(progen.programs(features=features, size=2))
-    src = progen.print_program(prog)
+    if draw(st.integers(0, 3)) == 0:
+        src = draw(st.sampled_from(FEATURE_SEEDS))
+    else:
+        prog = draw(progen.programs(features=features, size=2))
+        src = progen.print_program(prog)
     toks = tokens_of(src)
     sig = [i for i, t in enumerate(toks) if not t.isspace()]
     nm = draw(st.integers(1, 4))
@@ -56,7 +81,8 @@ def mutant(draw, features):
     for _ in range(nm):
         if not sig:
             break
-        k = draw(st.sampled_from(["delete", "duplicate", "swap", "replace", "truncate", "inject_kw", "unbalance", "splice", "bytes", "drop_range"]))
+        k = draw(st.sampled_from(["delete", "duplicate", "swap", "replace", "truncate", "inject_kw", "unbalance", "splice", "bytes", "drop_range",
+                                  "type_swap", "type_swap", "ident_swap", "none"]))
         kinds.append(k)
         i = sig[draw(st.integers(0, len(sig) - 1))]
         if k == "delete":
@@ -80,6 +106,19 @@ def mutant(draw, features):
             toks = toks[:lo] + toks[hi:] + toks[lo:hi]
         elif k == "bytes":
             toks[i] = draw(st.binary(min_size=1, max_size=6)).decode("latin-1")
+        elif k == "type_swap":
+            # a type word is replaced by another type word: the program stays syntactically plausible and reaches the
+            # type checker with an unexpected combination
+            tidx = [x for x in sig if toks[x] in ("int", "string", "bool", "float", "T", "E", "P", "V", "Op", "bstring")]
+            if tidx:
+                toks[tidx[draw(st.integers(0, len(tidx) - 1))]] = draw(st.sampled_from(TYPE_WORDS))
+        elif k == "ident_swap":
+            ids = [x for x in sig if toks[x][:1].isalpha() and toks[x] not in KEYWORDS]
+            if len(ids) >= 2:
+                a_, b_ = ids[draw(st.integers(0, len(ids) - 1))], ids[draw(st.integers(0, len(ids) - 1))]
+                toks[a_] = toks[b_]
+        elif k == "none":
+            pass
         elif k == "drop_range":
             j = min(len(toks), i + draw(st.integers(1, 30)))
             toks = toks[:i] + toks[j:]
